@@ -10,7 +10,7 @@ import pipe
 
 ID = "C05"
 MODULE = "C05"
-IMPORTS = "Bytes RustInt Range CacheControl Cache CacheProofs Fixture CacheX CacheXProofs RustStd Vary VaryProofs VaryWire VaryWireProofs"
+IMPORTS = "Bytes RustInt Range CacheControl Cache CacheProofs Fixture CacheX CacheXProofs RustStd Vary VaryProofs VaryWire VaryWireProofs RuleSet CacheRulesProofs VaryRules VaryRulesProofs"
 PROFILES = ("dev",)
 
 RULE = ("histories through the real kvarn::handle_cache in process (component vary.run, harness/src/c05.rs on top of c00pipe.rs) and over one loopback "
@@ -143,7 +143,14 @@ LEVEL_TEXT = ("Coq theorems, for all rule sets (any number of rules, names, tran
               "later requests happen after L, one cache key per URL); vector_refines_assoc_list + "
               "vary_cache_transparent connect the vector model to Model/CacheX.v (C03/C04's model of the merged code, all repairs on, now with its override "
               "URI instantiated by the real one instead of 'none') and C03's "
-              "transparency (without the premise that query-dependence is uniform per path). Tied to the repo by the differential run of the "
+              "transparency (without the premise that query-dependence is uniform per path). Which rules a page gets: vary_rules_of_most_specific (the rules_of "
+              "the model is instantiated with — rules_fix = RuleSet::get on the vector add_mut keeps — are, for every rule set and order of addition, "
+              "those of C14's independent most-specific resolver), vary_exact_rule_wins_c05 (an exact rule beats every covering wildcard, also '<path>*' "
+              "which is longer and '<path minus last byte>*' which is as long), vary_longest_pattern_wins_c05, vary_uncovered_path_has_no_rules, with "
+              "length_only_shadows_exact_refuted (ordered by text length alone, stable: /docs* and — added first — /doc* shadow /docs; its "
+              "accept-language variants share one key). Empty values: empty_value_is_transformed (a rule header present with an empty value gets "
+              "transformation(''), and selects another variant than the absent header whenever that differs from the default) with "
+              "empty_as_default_refuted (empty values skipped: one key for two answers). Tied to the repo by the differential run of the "
               "real kvarn::handle_cache and of kvarn::handle_connection (loopback) against the extracted models (incl. the order of the stored vector), "
               "the finite-map spec oracle and an independent Python reading of the property on the implementation's output. Not proved: the composition of "
               "honest_not_modified_sound with the one-second arithmetic of the freshness test (C04); streaming replies.")
@@ -1462,4 +1469,6 @@ THEOREMS = [(n, _PINS[n]) for n in (
     "vary_cache_transparent", "wire_vary_advertised", "send_keeps_vary", "wire_not_modified_as_is",
     "not_modified_only_for_stored_variant", "not_modified_same_entry_sound", "entry_changes_are_dated",
     "honest_not_modified_sound", "served_copy_is_held", "wire_416_without_vary_v0_refuted",
-    "wire_416_internal_route_v0_refuted", "not_modified_only_for_stored_variant_v0_refuted", "stale_position_v0_refuted")]
+    "wire_416_internal_route_v0_refuted", "not_modified_only_for_stored_variant_v0_refuted", "stale_position_v0_refuted",
+    "vary_rules_of_most_specific", "vary_exact_rule_wins_c05", "vary_longest_pattern_wins_c05", "vary_uncovered_path_has_no_rules",
+    "length_only_shadows_exact_refuted", "empty_value_is_transformed", "empty_as_default_refuted")]
